@@ -323,4 +323,140 @@ class GroupHistory(Part):
                 raise Violation("group.contains", f"{absent!r} reported as member")
 
 
-PARTS = [Spec(), Dups(), GroupHistory()]
+# ----------------------------------------------------------------------------- concurrent id allocation
+
+
+class _FakeGateway:
+    def __init__(self, id):
+        self.id = id
+
+
+def run_ids(case, preempt_at=(), count_lines=False):
+    from vlib import detsched as D
+
+    tree.use()
+    import execnet.multi as multi
+    from execnet.xspec import XSpec
+
+    s = D.Scheduler(case["choices"], preempt_at=preempt_at)
+    if preempt_at or count_lines:
+        s.enable_line_tracing()
+    real_lock = multi.Lock
+    multi.Lock = lambda: D.SLock(s)  # a real threading.Lock held by a parked thread would hang the harness
+    try:
+        group = multi.Group()
+    finally:
+        multi.Lock = real_lock
+    atexit.unregister(group._cleanup_atexit)
+    got, errors = [], []
+
+    def worker(i, explicit):
+        try:
+            spec = XSpec("popen" if explicit is None else "popen//id=" + explicit)
+            try:
+                group.allocate_id(spec)
+            except ValueError:
+                got.append((i, None))
+                return
+            got.append((i, spec.id))
+            # what makegateway does next: register the new gateway under that id
+            try:
+                group._register(_FakeGateway(spec.id))
+            except AssertionError:
+                errors.append(("register-refused-duplicate", spec.id))
+        except D.Abort:
+            raise
+        except BaseException as e:  # noqa: BLE001
+            errors.append(("raised", repr(e)))
+
+    for i, ex in enumerate(case["threads"]):
+        s.spawn(worker, (i, ex), name=f"alloc{i}", must_finish=True)
+    try:
+        s.run()
+    finally:
+        s.shutdown()
+    return s, group, got, errors
+
+
+def judge_ids(case, s, group, got, errors):
+    for name, exc in s.unhandled():
+        raise Violation("ids.thread-died", f"{name}: {exc!r}", exc=exc)
+    auto = [i for (k, i), ex in zip(sorted(got), case["threads"]) if ex is None and i is not None]
+    if len(set(auto)) != len(auto):
+        raise Violation("ids.duplicate-auto-id", f"concurrent allocate_id handed out {sorted(auto)}")
+    live = [g.id for g in group]
+    if len(set(live)) != len(live):
+        kind = "explicit-vs-auto" if any(ex is not None for ex in case["threads"]) else "auto-only"
+        raise Violation("ids.duplicate-live-id", f"group members {live} (threads {case['threads']})", site=kind)
+    n_auto = sum(1 for ex in case["threads"] if ex is None)
+    explicit = {ex for ex in case["threads"] if ex is not None}
+    for k, i in got:
+        if i is None and case["threads"][k] is None and not explicit:
+            raise Violation("ids.auto-refused", "allocate_id refused an automatic id although nothing collides")
+    if errors and not explicit:
+        raise Violation("ids." + errors[0][0], repr(errors[:3]))
+    expected = {"gw%d" % k for k in range(n_auto)}
+    if not explicit and set(auto) != expected:
+        raise Violation("ids.auto-sequence", f"{n_auto} concurrent allocations gave {sorted(auto)}")
+
+
+class Ids(Part):
+    """2-4 threads in allocate_id (+ registration) under the deterministic scheduler; every single
+    line-level preemption of the scenario is enumerated, plus generated multi-preemption schedules"""
+
+    name = "ids"
+    budget = {"quick": 300, "thorough": 10000}
+    min_per_shard = 10
+
+    def setup(self, ctx):
+        from vlib import detsched as D
+
+        D.preimport()
+        D.selftest(20, seed=ctx.seed)
+
+    def strategy(self, ctx):
+        thread = st.one_of(st.none(), st.none(), st.none(), st.sampled_from(["gw0", "gw1", "x"]))
+        return st.fixed_dictionaries(dict(
+            threads=st.lists(thread, min_size=2, max_size=4),
+            choices=st.lists(st.integers(0, 3), max_size=30),
+            preempt=st.lists(st.integers(0, 999), max_size=3),
+        ))
+
+    def run(self, case, ctx):
+        from vlib import detsched as D
+
+        single = case.get("single")
+        if single is not None:
+            s, group, got, errors = run_ids(dict(case, choices=case["choices"] + [single[1]] * 4), preempt_at=(single[0],))
+            judge_ids(case, s, group, got, errors)
+            return dict(nontrivial=True)
+        try:
+            s0, group, got, errors = run_ids(case, count_lines=True)
+            judge_ids(case, s0, group, got, errors)
+            n = s0.lines
+            runs, viol = 1, []
+            # (a) generated multi-preemption schedule
+            if case["preempt"]:
+                pre = sorted({1 + (f * max(1, n)) // 1000 for f in case["preempt"]})
+                s, group, got, errors = run_ids(case, preempt_at=pre)
+                judge_ids(case, s, group, got, errors)
+                runs += 1
+            # (b) every single preemption
+            for line in range(1, n + 1):
+                for alt in range(min(3, len(case["threads"]) - 1)):
+                    c2 = dict(case, choices=list(case["choices"]) + [alt] * 4)
+                    runs += 1
+                    try:
+                        s, group, got, errors = run_ids(c2, preempt_at=(line,))
+                        judge_ids(case, s, group, got, errors)
+                    except Violation as v:
+                        viol.append((v, dict(case, single=[line, alt])))
+        except D.Deadlock as e:
+            raise Violation("ids.blocks-forever", str(e)) from None
+        explicit = any(t is not None for t in case["threads"])
+        return dict(count=runs, nontrivial_count=runs - 1, violations=viol[:3], nontrivial=True,
+                    labels=[f"threads:{len(case['threads'])}", "explicit" if explicit else "auto-only"],
+                    sample={"threads": case["threads"], "lines": n, "runs": runs})
+
+
+PARTS = [Spec(), Dups(), GroupHistory(), Ids()]
